@@ -89,6 +89,7 @@ func secString(alts []oaSec) string {
 func judgeCase(rec *caseRecord, sum *jSummary) {
 	// hostile inputs (C14's input language: raw annotation properties, arbitrary validator tags, unsupported type shapes) carry
 	// expectations for termination and closure only
+	scopedCase(rec.Case) // controllers in files no glob matches are not part of the project gleece is asked about
 	hostile := false
 	for _, c := range rec.Case.Ctrls {
 		for _, s := range c.Sec {
